@@ -170,8 +170,13 @@ class C06(Prop):
                                     # (exact rationals; +-1 for the binary64 / binary32 roundings on the way)
                                     y0, y1 = Fraction(steps[k0]), Fraction(steps[k1])
                                     exact = y0 + (Fraction(avg) / 1000 - k0) / (k1 - k0) * (y1 - y0)
-                                    lo = max(go_round(min(steps[k0], steps[k1])), go_round(exact) - 1)
-                                    hi = min(go_round(max(steps[k0], steps[k1])), go_round(exact) + 1)
+                                    # ... and never beyond the two neighbouring speeds - as the code sees them: a speed that is no
+                                    # binary32 number (137.49999999999994) is a binary32 number after the cast on the way (137.5)
+                                    import struct
+                                    f32 = lambda x: struct.unpack("<f", struct.pack("<f", x))[0]
+                                    nb = [go_round(steps[k0]), go_round(steps[k1]), go_round(f32(steps[k0])), go_round(f32(steps[k1]))]
+                                    lo = max(min(nb), go_round(exact) - 1)
+                                    hi = min(max(nb), go_round(exact) + 1)
                             if not (lo <= v <= hi):
                                 out.append(viol(f"steps curve {a['id']} = {v} at {t} degrees, expected within [{lo},{hi}]", cops, cgo, upto=i))
                                 break
